@@ -351,16 +351,16 @@ pub fn property() -> Property {
             prop_sub(
                 "triples",
                 "triples of names derived from one base (interned names, ASCII, lengths 14..18/30..34/47..49, Unicode, Kelvin sign / dotless i / sharp s, empty) by re-casing, truncation, extension, one-character replacement, each built through one of 9 constructors; eq/cmp for owned and borrowed types vs. the reference relations, hash streams, constructor normalisation, HashMap/BTreeMap lookups by three spellings; non-trivial = the triple contains two equal names with different spellings; distinct = hash of the case",
-                30_000,
-                2_000_000,
+                200_000,
+                5_000_000,
                 |_| boxed((base_name(), [derive_strategy(), derive_strategy(), derive_strategy()], [0u8..N_CTORS, 0u8..N_CTORS, 0u8..N_CTORS]).prop_map(|(base, derive, ctor)| Case { base, derive, ctor })),
                 test,
             ),
             prop_sub(
                 "header_names",
                 "HTTP header names (standard ones and generated token strings): OwnedVarName::from(&HeaderName) = HTTP_ + upper-cased name with '-' -> '_', equal to the directly constructed name; non-trivial = valid header name",
-                5_000,
-                200_000,
+                20_000,
+                400_000,
                 |_| boxed(prop_oneof![
                     2 => prop_oneof![Just("user-agent"), Just("x-forwarded-for"), Just("accept"), Just("content-type"), Just("if-none-match"), Just("sec-ch-ua-platform-version"), Just("x-request-id"), Just("dnt"), Just("service-worker-navigation-preload")].prop_map(str::to_string),
                     3 => "[a-z0-9][a-z0-9-]{0,40}",
